@@ -297,7 +297,10 @@ Record opts := mkOpts {
   o_include : option (list key);    (* include_keys= (a list) *)
   o_exclude : option (list key);    (* exclude_keys= (a list) *)
   o_collapse : option Z;            (* collapse_level= *)
-  o_uncollapse : list (list key)    (* uncollapse= (a list of key paths) *)
+  o_uncollapse : list (list key);   (* uncollapse= (a list of key paths) *)
+  o_css : list str;                 (* css_classes= (trusted class names, root element only) *)
+  o_summary_color : option str * option str;   (* summary_color= (color, background-color): the root's summary name only *)
+  o_key_color : option str * option str        (* key_color= : every label-style key *)
 }.
 
 (* constants of the view *)
@@ -321,10 +324,13 @@ Definition s_empty_container := Eval compute in str_of "empty-container".
 Definition s_str := Eval compute in str_of "str".
 Definition s_int := Eval compute in str_of "int".
 Definition s_dots := Eval compute in str_of "(...)".
+Definition s_style := Eval compute in str_of "style".
+Definition s_color := Eval compute in str_of "color:".
+Definition s_bgcolor := Eval compute in str_of "background-color:".
 
 Definition vocabulary_tags : list str := [s_details; s_summary; s_div; s_span; s_table; s_tr; s_td].
 Definition vocabulary_opts : list str := [s_open].
-Definition vocabulary_attrs : list str := [s_class].
+Definition vocabulary_attrs : list str := [s_class; s_style].
 
 (* decimal digits of an integer (str(int)) *)
 Fixpoint uint_digits (u : Decimal.uint) : str :=
@@ -372,7 +378,15 @@ Fixpoint join_sp (l : list str) : str :=
   match l with [] => [] | [x] => x | x :: r => x ++ c_sp :: join_sp r end.
 Definition class_attr (l : list str) : list (str * str) := [(s_class, join_sp (dedup_acc [] l))].
 
-Definition tooltip_span (text : str) : hnode := El s_span [] (class_attr [s_tooltip]) [Txt text].
+(* Html.style_str on dict(color=, background_color=): nothing when both are None *)
+Definition style_attr (c : option str * option str) : list (str * str) :=
+  match (match fst c with Some x => s_color ++ x ++ [c_semi] | None => [] end)
+        ++ (match snd c with Some x => s_bgcolor ++ x ++ [c_semi] | None => [] end) with
+  | [] => []
+  | st => [(s_style, st)]
+  end.
+
+Definition tooltip_span (css : list str) (text : str) : hnode := El s_span [] (class_attr (s_tooltip :: css)) [Txt text].
 
 Fixpoint is_prefix (p l : list key) : bool :=
   match p, l with
@@ -431,31 +445,33 @@ Section TreeView.
     end.
 
   (* HtmlTreeView.summary *)
-  Definition summary_el (name : option key) (path : list key) (v : pv) : hnode :=
+  Definition summary_el (css : list str) (scolor : option str * option str) (name : option key) (path : list key) (v : pv) : hnode :=
     El s_summary [] []
       ((match name with
-        | Some k => [El s_div [] (class_attr [s_summary_name])
-                       (Txt (name_text k) :: (if o_key_tooltip o then [tooltip_span (path_str path)] else []))]
+        | Some k => [El s_div [] (class_attr (s_summary_name :: css) ++ style_attr scolor)
+                       (Txt (name_text k) :: (if o_key_tooltip o then [tooltip_span css (path_str path)] else []))]
         | None => []
         end)
-       ++ [El s_div [] (class_attr [s_summary_title]) [Txt (title_of v)]]
-       ++ (if o_summary_tooltip o then [tooltip_span (fmt_of v)] else [])).
+       ++ [El s_div [] (class_attr (s_summary_title :: css)) [Txt (title_of v)]]
+       ++ (if o_summary_tooltip o then [tooltip_span css (fmt_of v)] else [])).
 
   (* HtmlTreeView.object_key (+ its tooltip) *)
   Definition key_cell (k : key) (cpath : list key) : list hnode :=
-    El s_span [] (class_attr [s_object_key; key_type k]) [Txt (key_label k)]
-    :: (if o_key_tooltip o then [tooltip_span (path_str cpath)] else []).
+    El s_span [] (class_attr [s_object_key; key_type k] ++ style_attr (o_key_color o)) [Txt (key_label k)]
+    :: (if o_key_tooltip o then [tooltip_span [] (path_str cpath)] else []).
 
   (* simple_value's value_repr: a string shorter than max_summary_len_for_str is shown through repr, a longer one as it is *)
   Definition leaf_text (lk : lkind) (raw rep : str) : str :=
     if is_str lk then (if (Z.of_nat (List.length raw) <? o_max_len o)%Z then rep else raw) else rep.
 
   (* HtmlTreeView._render: summary + content (simple_value / complex_value) *)
-  Fixpoint tv (name : option key) (path : list key) (cl : option Z) (incl excl : option (list key)) (v : pv) {struct v} : hnode :=
+  Fixpoint tv (css : list str) (scolor : option str * option str) (name : option key) (path : list key) (cl : option Z)
+              (incl excl : option (list key)) (v : pv) {struct v} : hnode :=
+    let ccss := if needs_summary name v then [] else css in
     let content :=
       match v with
       | PLeaf lk _ cname raw rep _ =>
-          El s_span [] (class_attr [s_simple_value; cname])
+          El s_span [] (class_attr ([s_simple_value; cname] ++ ccss))
              [Txt (leaf_text lk raw rep)]
       | PNode is_seq _ cname _ items =>
           let cl' := option_map (fun n => (n - 1)%Z) cl in
@@ -465,24 +481,24 @@ Section TreeView.
                    let cpath := path ++ [fst kc] in
                    (fst kc,
                     if label
-                    then El s_tr [] [] [El s_td [] [] (key_cell (fst kc) cpath); El s_td [] [] [tv None cpath cl' None None (snd kc)]]
-                    else tv (Some (fst kc)) cpath cl' None None (snd kc))) items in
+                    then El s_tr [] [] [El s_td [] [] (key_cell (fst kc) cpath); El s_td [] [] [tv [] (None, None) None cpath cl' None None (snd kc)]]
+                    else tv [] (None, None) (Some (fst kc)) cpath cl' None None (snd kc))) items in
           let present := map fst items in
           let order0 := match incl with None => present | Some l => filter (fun k => key_mem k present) l end in
           let order := match excl with None => order0 | Some l => filter (fun k => negb (key_mem k l)) order0 end in
           let kids := flat_map (fun k => match assoc_key k rendered with Some h => [h] | None => [] end) order in
-          El s_div [] (class_attr [s_complex_value; cname])
+          El s_div [] (class_attr ([s_complex_value; cname] ++ ccss))
              (match kids with
               | [] => [El s_span [] (class_attr [s_empty_container]) []]
               | _ => if label then [El s_table [] [] kids] else kids
               end)
       end in
     if needs_summary name v
-    then El s_details (if should_collapse name path cl v then [] else [s_open]) (class_attr [s_pyglove; cname_of v])
-            [summary_el name path v; content]
+    then El s_details (if should_collapse name path cl v then [] else [s_open]) (class_attr ([s_pyglove; cname_of v] ++ css))
+            [summary_el css (match name with Some _ => scolor | None => (None, None) end) name path v; content]
     else content.
 
-  Definition tree_view (v : pv) : hnode := tv (o_name o) (o_root_path o) (o_collapse o) (o_include o) (o_exclude o) v.
+  Definition tree_view (v : pv) : hnode := tv (o_css o) (o_summary_color o) (o_name o) (o_root_path o) (o_collapse o) (o_include o) (o_exclude o) v.
 
   (* which keys the options ask to show, and as what text: label-style keys (and all indices of a list / tuple) through
      object_key, summary-style keys as the summary name of the child -- when the child has a summary at all *)
@@ -509,7 +525,8 @@ Definition path_included (o : opts) (p : list key) : bool :=
           | (2 str)       -> (2 escaped unescaped ok)     escape str, unescape str, no_meta (escape str) as a boolean
    key  ::= (0 z) | (1 str)
    pv   ::= (0 lkind tname cname raw rep fmt) | (1 is_seq tname cname fmt ((key pv) ...))
-   opts ::= (name? root_path enable_summary? for_str max_len summary_tooltip key_tooltip label_keys include? exclude? collapse? uncollapse)
+   opts ::= (name? root_path enable_summary? for_str max_len summary_tooltip key_tooltip label_keys include? exclude? collapse? uncollapse
+            css (color? bg?) (color? bg?))
    tree ::= (0 tag (opt ...) ((name value) ...) (tree ...)) | (1 text) | (2 raw)                                        *)
 Definition d_key (t : tr) : option key :=
   match t with
@@ -542,11 +559,12 @@ Fixpoint d_pv (fuel : nat) (t : tr) : option pv :=
   end.
 Definition d_opts (t : tr) : option opts :=
   match t with
-  | L [nm; rp; es; fs; ml; st; kt; lb; inc; exc; cl; unc] =>
+  | L [nm; rp; es; fs; ml; st; kt; lb; inc; exc; cl; unc; css; sc; kc] =>
       do nm' <- dopt d_key nm; do rp' <- dlist d_key rp; do es' <- dopt dbool es; do fs' <- dbool fs; do ml' <- dZ ml;
       do st' <- dbool st; do kt' <- dbool kt; do lb' <- dbool lb;
       do inc' <- dopt (dlist d_key) inc; do exc' <- dopt (dlist d_key) exc; do cl' <- dopt dZ cl; do unc' <- dlist (dlist d_key) unc;
-      Some (mkOpts nm' rp' es' fs' ml' st' kt' lb' inc' exc' cl' unc')
+      do css' <- dlist dstr css; do sc' <- dpair (dopt dstr) (dopt dstr) sc; do kc' <- dpair (dopt dstr) (dopt dstr) kc;
+      Some (mkOpts nm' rp' es' fs' ml' st' kt' lb' inc' exc' cl' unc' css' sc' kc')
   | _ => None
   end.
 
